@@ -40,6 +40,16 @@ pub fn run(ctx: &Ctx) -> i32 {
     let mut trees = families::plain(w);
     let nplain = trees.len();
     trees.extend(families::marked(w));
+    // sources that already contain obscured elements: every single-target obscuration (three actions) of the light trees; their digest sets
+    // are the digests still OCCURRING in them (ground truth by observation), targets may be the digests of obscured elements
+    let mut obscured_sources: Vec<(M, Envelope)> = vec![];
+    for m in families::marked(if th { 5 } else { 4 }) {
+        let e = bind::build(&m, 0);
+        for d in m.distinct_digests().into_iter().skip(1) { for (kind, act) in super::c02::actions() {
+            let t: HashSet<D> = [d].into_iter().collect();
+            if let Ok(r) = catch(|| e.elide_removing_set_with_action(&bind::dset(&[d]), &act)) { obscured_sources.push((crate::refmodel::ops::elide(&m, &t, false, kind), r)) }
+        } }
+    }
     let others: Vec<(D, Envelope)> = families::plain(4).iter().map(|m| (m.digest(), bind::build(m, 0))).collect();
     let acc = trees.par_iter().enumerate().with_max_len(1).map(|(ti, m)| {
         let mut acc = Acc::new();
@@ -119,7 +129,38 @@ pub fn run(ctx: &Ctx) -> i32 {
         if ti % 173 == (ctx.seed as usize % 173) { acc.sample(json!({"tree": m.show(), "target_subsets": (1u32 << k) - 1, "plus_absent": true})) }
         acc
     }).reduce(Acc::new, Acc::merge);
-    let evals = acc.get("proof_requests") + acc.get("soundness_other_target_sets") + acc.get("soundness_other_envelopes") + acc.get("soundness_mutated_proofs");
+    let acc_obs = obscured_sources.par_iter().enumerate().with_max_len(1).map(|(si, (m, e))| {
+        let mut acc = Acc::new();
+        let ds = m.distinct_digests(); let k = ds.len().min(8);
+        let dset: HashSet<D> = m.distinct_digests().into_iter().collect();
+        let root = m.digest();
+        for mask in 1u32..(1u32 << k) { for absent in [false, true] {
+            let mut t: HashSet<D> = (0..k).filter(|i| mask >> i & 1 == 1).map(|i| ds[i]).collect();
+            if absent { t.insert(families::absent_digest()); }
+            let tset = bind::dset(&t.iter().cloned().collect::<Vec<_>>());
+            acc.inc("proof_requests_on_obscured_sources");
+            let cid = || format!("obscured-source{si}/mask{mask}/absent{}", absent as u8);
+            let det = || json!({"source": m.show(), "targets": t.iter().map(|d| hex::encode(&d[..4])).collect::<Vec<_>>()});
+            let (mut p, mut a) = (HashSet::new(), HashSet::new()); paths(m, &t, &mut vec![], &mut p, &mut a);
+            match catch(|| e.proof_contains_set(&tset)) {
+                Err(pn) => acc.viol(format!("C12|panic|{}", pn.site), pn.msg.clone(), cid(), det()),
+                Ok(None) => if t.is_subset(&dset) { acc.viol("C12|complete|obscured-source|no-proof", "no proof although every target occurs in the (partly obscured) envelope", cid(), det()) },
+                Ok(Some(proof)) => {
+                    if !t.is_subset(&dset) { acc.viol("C12|complete|obscured-source|proof-for-absent-target", "proof produced for an absent target", cid(), det()); continue }
+                    let po = bind::observe(&proof);
+                    if po.digest() != root { acc.viol("C12|complete|obscured-source|root-digest", "proof root digest differs", cid(), det()) }
+                    if !bind::elided_from_digest(root).confirm_contains_set(&tset, &proof) { acc.viol("C12|complete|obscured-source|own-proof-rejected", "a produced proof is rejected for its own targets", cid(), det()) }
+                    // minimality: nothing off the paths is revealed; an element that was encrypted / compressed in the source may stay so only on a path
+                    fn revealed_off_path(o: &O, p: &HashSet<D>, path: &str) -> Option<String> { if !p.contains(&o.digest()) && !matches!(o, O::Obscured(Kind::Elided, _)) { return Some(path.to_string()) } for (n, c) in o.children() { if let Some(x) = revealed_off_path(c, p, &format!("{path}/{n}")) { return Some(x) } } None }
+                    if let Some(path) = revealed_off_path(&po, &p, "") { acc.viol("C12|minimal|obscured-source|off-path-element-revealed", format!("proof discloses an element off the paths at {path}"), cid(), det()) }
+                    acc.nontrivial(&("obs", si, mask));
+                }
+            }
+        } }
+        acc
+    }).reduce(Acc::new, Acc::merge);
+    let acc = acc.merge(acc_obs);
+    let evals = acc.get("proof_requests_on_obscured_sources") + acc.get("proof_requests") + acc.get("soundness_other_target_sets") + acc.get("soundness_other_envelopes") + acc.get("soundness_mutated_proofs");
     let cov = json!({"evaluations": evals,
         "rule": "tree (both marker instantiations) x every non-empty subset of its digests, with and without one absent digest: completeness, root digest, acceptance by a root-only verifier, minimal disclosure by digest; soundness against every other target subset, every other envelope of a family, single-element mutations; distinct = (tree, subset) with a produced proof",
         "exhaustive": true, "bounds": {"tree_weight": w, "other_envelopes": others.len()}});
